@@ -202,8 +202,11 @@ def gen_text(rng, cct, maxlen, wild=0.0):
     """a text-field body (no padding): words, spaces, control codes, newlines, reserved codes"""
     out = bytearray()
     dh = rng.random() < 0.25
-    if dh and rng.random() < 0.8: out.append(0x0D)
+    if dh and (wild == 0.0 or rng.random() < 0.8): out.append(0x0D)
     target = rng.randrange(0, maxlen + 1)
+    def hi():
+        b = rng.randrange(0xA0, 0x100)
+        return 0xA5 if b == 0xA4 and rng.random() > 0.05 + wild else b
     while len(out) < target:
         k = rng.random()
         if k < 0.45:
@@ -213,15 +216,15 @@ def gen_text(rng, cct, maxlen, wild=0.0):
                 elif r < 0.85:
                     if cct == b"00" or cct not in (b"01", b"02", b"03", b"04"):
                         out.append(rng.randrange(0xC1, 0xD0)); out.append(rng.choice(b"aeioucnszyAEIOUCNSZgG xq") if rng.random() < 0.9 else rng.randrange(0x20, 0x100))
-                    else: out.append(rng.randrange(0xA0, 0x100))
-                else: out.append(rng.randrange(0xA0, 0x100) if rng.random() < 0.9 else 0x7F)
+                    else: out.append(hi())
+                else: out.append(hi() if rng.random() < 0.9 else 0x7F)
         elif k < 0.65: out += b" " * rng.choice([1, 1, 1, 2, 3])
         elif k < 0.85:
             out.append(rng.choice(CONTROL))
             if rng.random() < 0.2: out.append(rng.choice(CONTROL))
         elif k < 0.95:
             out.append(0x8A)
-            if dh or rng.random() < 0.08: out.append(0x8A)
+            if dh or rng.random() < 0.03: out.append(0x8A)
             if rng.random() < 0.4: out.append(rng.choice([0x0D, 7, 3, 6, 0x0B])) if dh else out.append(rng.choice([7, 3, 6, 2, 0x0B]))
         elif k < 0.98: out.append(rng.choice(RESERVED))
         elif rng.random() < wild: out.append(0x8F)
@@ -321,9 +324,9 @@ def gen_file(rng, profile):
         mr = max_rows if isinstance(max_rows, int) and max_rows > 0 else 23
         if rng.random() < 0.85: vp = max(1, min(mr, mr - rows_needed + 1 - rng.choice([0, 0, 0, 1, 2]))) if rng.random() < 0.7 else rng.randrange(1, max(2, mr // 2))
         else: vp = rng.choice([0, 0, mr, mr + 1, 255, rng.randrange(256)])
-        if profile == "wf" and vp == 0 and rng.random() < 0.7: vp = 1
+        if profile == "wf" and vp == 0 and rng.random() < 0.85: vp = 1
         vp = max(0, min(255, vp))
-        cf = 1 if rng.random() < (0.03 if profile == "wf" else 0.08) else 0
+        cf = 1 if rng.random() < (0.01 if profile == "wf" else 0.08) else 0
         for k, ch in enumerate(chunks):
             last = k == len(chunks) - 1
             ebn = 0xFF if last else k
@@ -411,11 +414,21 @@ def main():
     hdr = ("From Coq Require Import QArith.\nFrom TT Require Import Base.Prelude Model.TimeCode Model.Iso6937 Model.StlTf Model.StlDatafile "
            "Model.StlTriggers Model.StlCases Spec.Ebu3264Spec.\nOpen Scope Z_scope.\n")
 
+    # ---- replay of a stored violation: only its input is evaluated ---------------------------------------------------
+    replay = None
+    if os.environ.get("VERIF_REPLAY"):
+        try:
+            replay = json.load(open(os.environ["VERIF_REPLAY"]))["replay"]
+        except Exception as e:
+            run.violation(f"replay file unreadable: {e}", dict(kind="replay", path=os.environ["VERIF_REPLAY"]), False); return run.finish()
+        run.log("replaying", os.environ["VERIF_REPLAY"])
+
     # ---- 1. ISO 6937: every single byte, every diacritic pair (+ every other pair start in the thorough tier) ------
     from ttconv.stl import iso6937, tf as tfmod
     import ttconv.model as model
     iso_in = [bytes([b]) for b in range(256)] + [bytes([d, b]) for d in range(0xC1, 0xD0) for b in range(256)]
-    if thorough: iso_in += [bytes([a, b]) for a in range(256) if not 0xC1 <= a <= 0xCF for b in range(256)]
+    if replay is not None: iso_in = [bytes.fromhex(replay["input"])] if replay.get("spec", "").endswith("decode_iso6937") else [b"A"]
+    elif thorough: iso_in += [bytes([a, b]) for a in range(256) if not 0xC1 <= a <= 0xCF for b in range(256)]
     else: iso_in += [bytes([rng.randrange(256) for _ in range(rng.randrange(2, 9))]) for _ in range(1500)]
     iso_rows = []
     for k in iso_in:
@@ -432,12 +445,17 @@ def main():
     # ---- 2. text fields through tf.to_model -------------------------------------------------------------------------
     n_tf = 30000 if thorough else 2500
     tf_rows = []
+    tf_replay = None
+    if replay is not None:
+        n_tf = 1
+        if "tf" in replay: tf_replay = (bool(replay["teletext"]), replay["cct"].encode("latin1"), bytes.fromhex(replay["tf"]))
     for i in range(n_tf):
         cct = rng.choice([b"00", b"00", b"00", b"01", b"02", b"03", b"04", b"09"])
         tele = rng.random() < 0.5
         body = gen_text(rng, cct, rng.choice([8, 20, 40, 112, 224]), wild=0.3)
         if rng.random() < 0.1: body = bytes(rng.randrange(256) for _ in range(rng.randrange(0, 40)))
         if rng.random() < 0.5: body += b"\x8f" * rng.randrange(0, 5)
+        if tf_replay: tele, cct, body = tf_replay
         doc = model.ContentDocument(); p = model.P(doc)
         try:
             tfmod.to_model(p, tele, cct, body)
@@ -460,6 +478,12 @@ def main():
         for cfg in (CORPUS_CFGS if thorough else [CORPUS_CFGS[0], rng.choice(CORPUS_CFGS[1:])]):
             cases.append((data, dict(cfg), dict(profile="corpus", file=os.path.basename(f))))
     n_gen = 5000 if thorough else 300
+    if replay is not None:
+        n_gen = 0; cases = cases[:1]
+        if isinstance(replay.get("first"), dict) and "file_hex" in replay["first"]:
+            cfg = replay["first"]["config"]
+            if cfg.get("fonts") is not None: cfg["fonts"] = [tuple(x) for x in cfg["fonts"]]
+            cases = [(bytes.fromhex(replay["first"]["file_hex"]), cfg, dict(profile="replay"))]
     for i in range(n_gen):
         prof = "wf" if i % 10 < 6 else ("mild" if i % 10 < 9 else "wild")
         cases.append(gen_file(rng, prof))
@@ -615,6 +639,7 @@ def main():
              "cell resolution, body styles, regions (origin/extent/displayAlign), and per paragraph region, alignment, sizes, begin/end, runs "
              "(colours, italics, underline, text) and line breaks; compared in Coq with M, judged by S. distinct_nontrivial = distinct "
              "non-empty canonical documents + distinct text fields.",
+        replayed=os.environ.get("VERIF_REPLAY"),
         samples=[dict(file=cases[0][2], config=cases[0][1]), dict(tf=tf_rows[0][2].hex(), teletext=tf_rows[0][0], cct=tf_rows[0][1].decode("latin1"))] +
                 ([dict(generated=cases[len(corpus) * 2][2], config=cases[len(corpus) * 2][1])] if len(cases) > len(corpus) * 2 else []),
         profiles=hist(lambda c: c[2].get("profile")), dfc=hist(lambda c: c[2].get("dfc", "corpus")), cct=hist(lambda c: c[2].get("cct", "corpus")),
